@@ -114,12 +114,14 @@ def run(rep, rng, tier, replay=None):
     impl = harness("matrix", dict(cases=cases), timeout=600)["results"]
     model = run_model("C16", [], SC.TC.PRELUDE, c15.model_exprs(cases), batch=40)
     hist = {}
+    by_matrix = {}
     for c, o, r in zip(cases, impl, model):
         n = c["n"]
         fi, m = c15.impl_fields(o["f64"]), c15.parse_model(c, r)
         key = "%s/%s/%s" % (c["kind"], "test" if c["stability"] is not None else "notest", fi["tag"])
         hist[key] = hist.get(key, 0) + 1
         rep.count([c["m"], c["stability"]], c["kind"] not in ("spd",) or c["stability"] is not None)
+        by_matrix.setdefault(json.dumps([c["n"], c["m"]]), []).append((c, fi["tag"]))
         if fi["tag"] != m["tag"]:
             rep.violation("correspondence", "outcome implementation %s, model %s (kind %s, tol %s)" % (fi["tag"], m["tag"], c["kind"], c["stability"] and b2f(c["stability"])), case=c)
         elif fi["tag"] == "ok":
@@ -178,6 +180,16 @@ def run(rep, rng, tier, replay=None):
             allf = [fi["determinant"]] + fi["inverse"] + fi["q_transposed"] + fi["q_transposed_inverse"]
             if any(b2f(v) != b2f(v) for v in allf):
                 rep.violation("property", "sample returned Ok with a NaN decomposition although the stability test is enabled", case=c, failing_input=True)
+    # "an exactly zero pivot product yields the ZeroDet error": whatever the stability setting.  The pivot product does not depend
+    # on the setting, so a matrix that gives ZeroDet with the test off must give ZeroDet with it on
+    for key, lst in by_matrix.items():
+        off = [t for c_, t in lst if c_["stability"] is None]
+        if off and "ZeroDet" in off[0]:
+            for c_, t in lst:
+                if c_["stability"] is not None and "ZeroDet" not in t:
+                    rep.violation("property", "zero pivot product (ZeroDet with the stability test off) is reported as %s with the test on (tol %r, kind %s)" % (
+                        t, b2f(c_["stability"]), c_["kind"]), case=c_, failing_input=True, what="a zero pivot product does not yield ZeroDet")
+                    break
     rep.cov["outcome_histogram"] = hist
     rep.cov["rule"] = ("symmetric matrices n=1..6: SPD, ill-conditioned SPD, exactly rank-deficient integer (zero pivot), indefinite, NaN/inf-containing, and fixed corner cases "
                        "([[-1]], diag(1e-200), diag(1e300), 0); each with the test off and with tolerances 1e-30, 1e-5, half and twice the exactly computed error; outcome tag and "
